@@ -455,6 +455,23 @@ theorem cancel_restores_reachable (hfix : cfg.fixD1 = true) {s : St} (h : Reacha
   cancel_restores (reachable_inv hfix h).buf hcs
 
 
+/-- the cycling laws in every reachable state whose menu was just opened: `n` presses of
+    `complete_next()` visit completions `0 … n-1` in order, press `n+1` restores the original
+    text; `complete_previous()` does the same backwards -/
+theorem cycle_reachable (hfix : cfg.fixD1 = true) {s : St} (h : Reachable cfg env s)
+    {st : CState} (hcs : s.cs = some st) (hi : st.index = none) (hne : st.comps ≠ []) :
+    (∀ k, k < st.comps.length → (nextN cfg s (k + 1)).cs = some { st with index := some k }) ∧
+    (nextN cfg s (st.comps.length + 1)).text = st.orig.text ∧
+    (nextN cfg s (st.comps.length + 1)).cur = st.orig.cur ∧
+    (∀ k, k < st.comps.length →
+      (prevN cfg s (k + 1)).cs = some { st with index := some (st.comps.length - 1 - k) }) ∧
+    (prevN cfg s (st.comps.length + 1)).text = st.orig.text ∧
+    (prevN cfg s (st.comps.length + 1)).cur = st.orig.cur := by
+  have hb := (reachable_inv hfix h).buf
+  have w := cycle_wraps hb hcs hi hne
+  have b := cycle_backward hb hcs hi hne
+  exact ⟨fun k hk => (cycle_visits_all hb hcs hi k hk).1, w.2.1, w.2.2, b.1, b.2.2.1, b.2.2.2⟩
+
 /-! ### the mechanisms, step by step: a stale result is dropped, not published -/
 
 /-- A completer stream delivers a result (or ends) after the buffer's state object was
